@@ -5,7 +5,10 @@
 // Observed per run:
 //   race  — the output contains "WARNING: DATA RACE" or the runtime's fatal "concurrent map" error;
 //   hang  — the scenario did not finish within its watchdog (goroutines blocked on a leaked lock):
-//           the goroutine dump is the replay.
+//           the goroutine dump is the replay;
+//   crash — the process was aborted by a panic raised in Vouch's own code (the first frame of the
+//           panicking goroutine outside the Go runtime is in github.com/attestantio/vouch, not in a
+//           mock): an overlap made an operation see a state that no sequential order produces.
 // A scenario that fails for any other reason is a harness problem and fails the harness run.
 //
 // Input (corpus / replay): {"scenario": <name>}.  The corpus holds the scenarios that witnessed the
@@ -104,7 +107,7 @@ func single(rounds int, f func(i int)) (wait func()) {
 
 const (
 	hangMarker      = "C17-HANG"
-	scenarioTimeout = 40 * time.Second
+	scenarioTimeout = 25 * time.Second
 )
 
 func TestC17Scenario(t *testing.T) {
@@ -125,8 +128,36 @@ func TestC17Scenario(t *testing.T) {
 }
 
 type observed struct {
-	race, hang, broken bool
-	report             string
+	race, hang, crash, broken bool
+	report                    string
+}
+
+// vouchPanic reports whether the output shows a panic whose first frame outside the runtime is Vouch code.
+func vouchPanic(text string) (bool, string) {
+	i := strings.Index(text, "\npanic: ")
+	if i < 0 {
+		if !strings.HasPrefix(text, "panic: ") {
+			return false, ""
+		}
+		i = -1
+	}
+	rest := text[i+1:]
+	j := strings.Index(rest, "[running]:")
+	if j < 0 {
+		return false, ""
+	}
+	for _, line := range strings.Split(rest[j:], "\n")[1:] {
+		if line == "" {
+			break
+		}
+		if strings.HasPrefix(line, "\t") || strings.HasPrefix(line, "panic(") || strings.HasPrefix(line, "runtime.") ||
+			strings.HasPrefix(line, "testing.") || strings.HasPrefix(line, "sync.") || strings.HasPrefix(line, "internal/") {
+			continue
+		}
+		inVouch := strings.HasPrefix(line, "github.com/attestantio/vouch/") && !strings.Contains(line, "/mock") && !strings.Contains(line, "vouch/testing/")
+		return inVouch, rest
+	}
+	return false, ""
 }
 
 func runScenario(name string) observed {
@@ -139,8 +170,12 @@ func runScenario(name string) observed {
 	var o observed
 	o.race = strings.Contains(text, "WARNING: DATA RACE") || strings.Contains(text, "fatal error: concurrent map")
 	o.hang = strings.Contains(text, hangMarker) || strings.Contains(text, "all goroutines are asleep") || ctx.Err() != nil
-	o.broken = err != nil && !o.race && !o.hang
+	var panicText string
+	o.crash, panicText = vouchPanic(text)
+	o.broken = err != nil && !o.race && !o.hang && !o.crash
 	switch {
+	case o.crash:
+		o.report = head(panicText, 2400)
 	case o.race:
 		o.report = head(raceReport(text), 2400)
 	case o.hang:
@@ -209,12 +244,15 @@ func TestC17(t *testing.T) {
 		if o.hang {
 			col.Count("hang:" + n)
 		}
+		if o.crash {
+			col.Count("crash:" + n)
+		}
 		id := col.NextID()
 		col.Add(Case{
 			Term: Record("c_id", N(id), "c_service", fmt.Sprintf("%q", scenarios[n].service), "c_scenario", fmt.Sprintf("%q", n),
-				"c_race", Bool(o.race), "c_hang", Bool(o.hang)),
+				"c_race", Bool(o.race), "c_hang", Bool(o.hang), "c_crash", Bool(o.crash)),
 			Key: fmt.Sprintf("%s#%d", n, reps[n]), Nontrivial: true, Tags: []string{"scenario:" + n, "service:" + scenarios[n].service},
-			Sample: map[string]any{"input": in, "observed": map[string]any{"race": o.race, "hang": o.hang, "report": o.report}},
+			Sample: map[string]any{"input": in, "observed": map[string]any{"race": o.race, "hang": o.hang, "crash": o.crash, "report": o.report}},
 		})
 		reps[n]++
 	}
